@@ -76,7 +76,7 @@ static void prop(Tape &t, Ctx &c) {
             if (rc >= 0) { type = PS_ED25519; VF_CHECK(k.havePriv, "ed25519-nopriv", "success without havePriv"); }
             break; }
         }
-        leak.check(fmt("api=%s rc=%d", names[api], rc));
+        C09_LEAK_CHECK(leak, "api=%s rc=%d", names[api], rc);
     }
     if (rc >= 0) c.count(fmt("parsed.api%u.type%d", api, type));
     else if (deep) c.count(fmt("rejected.deep.api%u", api)); else c.count("rejected.shallow");
